@@ -34,16 +34,28 @@ def finished : PC → Bool
   | .doneCreated | .doneExisting => true
   | _ => false
 
+/-- does not stand in anybody's way: finished / failed / killed / not started, or a cancelled waiter whose
+detached flock thread is still blocked (it owns no lock) -/
+def passive : PC → Bool
+  | .idle | .doneExisting | .doneCreated | .doneErr _ | .dead | .zombieWait _ => true
+  | _ => false
+
 /-- the situation of a solo run of creator `p` that started with destination `d0` -/
 structure Solo (pl : Pid → Content) (p : Pid) (d0 : Option Inode) (s : State) : Prop where
   inv : Inv pl s
-  others : ∀ q, q ≠ p → quiet (s.pc q) = true
+  others : ∀ q, q ≠ p → passive (s.pc q) = true
   track : onTrack d0.isNone (s.pc p) = true
   destNone : d0 = none → afterRename (s.pc p) = false → s.dest = none
   destSame : ∀ j, d0 = some j → s.dest = some j
 
 theorem quiet_holds {pc : PC} (h : quiet pc = true) : holdsLock pc = none := by
   cases pc <;> simp [quiet] at h <;> simp [holdsLock]
+
+theorem passive_holds {pc : PC} (h : passive pc = true) : holdsLock pc = none := by
+  cases pc <;> simp [passive] at h <;> simp [holdsLock]
+
+theorem quiet_passive {pc : PC} (h : quiet pc = true) : passive pc = true := by
+  cases pc <;> simp [quiet] at h <;> simp [passive]
 
 set_option maxHeartbeats 1000000 in
 /-- one more step is enabled, stays on the track, and decreases the measure -/
@@ -57,7 +69,7 @@ theorem solo_step {pl : Pid → Content} {p : Pid} {d0 : Option Inode} {s : Stat
     apply Classical.byContradiction
     intro hne
     have := hinv.holdB q i hq
-    rw [quiet_holds (hoth q hne)] at this
+    rw [passive_holds (hoth q hne)] at this
     exact absurd this (by simp)
   have hB := hinv.holdB p
   have hE := hinv.writing p
@@ -75,8 +87,8 @@ theorem solo_step {pl : Pid → Content} {p : Pid} {d0 : Option Inode} {s : Stat
       | (refine ⟨_, rfl, ⟨?_, ?_, ?_, ?_, ?_⟩, ?_⟩
          · exact inv_stepP (p := p) hinv (by simp [stepP, *])
          all_goals (try simp only [upd])
-         all_goals (grind [onTrack, afterRename, rank, holdsLock, quiet, sawDest, inCS]))
-      | (exfalso; grind [onTrack, afterRename, rank, holdsLock, quiet, sawDest, inCS]))
+         all_goals (grind [onTrack, afterRename, rank, holdsLock, passive, sawDest, inCS]))
+      | (exfalso; grind [onTrack, afterRename, rank, holdsLock, passive, sawDest, inCS]))
 
 /-- a solo creator whose operations all succeed finishes -/
 theorem solo_progress {pl : Pid → Content} {p : Pid} {d0 : Option Inode} :
